@@ -280,8 +280,53 @@ def rule_python_snapshot_pickup(ctx):
                         refuses[sub] = 'src/%s:%s %s' % (cfile, line_of(ifs), fname)
     anchor(set(refuses) == {'ri_whfast', 'ri_saba'}, 'keep_unsynchronized/safe_mode compatibility tests in the WHFast and SABA init')
 
+    # ---- R09.7: no switch is set on a path on which a synchronising call may already have run (path walk, may-analysis)
+    def is_setter(st):
+        return isinstance(st, ast.Assign) and any(isinstance(t, ast.Attribute) and t.attr == 'keep_unsynchronized' for t in st.targets)
+
+    def has_sync(st):
+        return any(isinstance(c, ast.Call) and isinstance(c.func, ast.Attribute) and c.func.attr in SYNC for c in ast.walk(st))
+    all_setters = []
+    late = []
+
+    def flow(stmts, synced):
+        """returns (may-have-synchronised after the list, list always leaves the function)"""
+        for st in stmts:
+            if isinstance(st, ast.If):
+                s1, t1 = flow(st.body, synced)
+                s2, t2 = flow(st.orelse, synced)
+                if t1 and t2:
+                    return synced, True
+                synced = (s1 and not t1) or (s2 and not t2) or (synced and False)
+                synced = (False if t1 else s1) or (False if t2 else s2)
+                continue
+            if isinstance(st, (ast.For, ast.While, ast.With, ast.Try)):
+                s1, _ = flow(getattr(st, 'body', []), synced)
+                synced = synced or s1
+                continue
+            if is_setter(st):
+                all_setters.append(st)
+                if synced:
+                    late.append(st)
+            if has_sync(st):
+                synced = True
+            if isinstance(st, (ast.Return, ast.Raise)):
+                return synced, True
+        return synced, False
+    flow(fn.body, False)
+    n += 1 + len(all_setters)
+    where0 = 'rebound/simulationarchive.py:%d Simulationarchive.getSimulation' % fn.lineno
+    if not all_setters:
+        ctx.report('R09.7', 'getSimulation:missing', where0, 'getSimulation never sets a keep_unsynchronized switch: a picked-up snapshot is synchronised for good and the continued run is not bit-identical')
+    for st in late:
+        tgt = ast.unparse(st.targets[0])
+        ctx.report('R09.7', 'getSimulation:%s:order' % tgt.split('.')[-2] if '.' in tgt else tgt, 'rebound/simulationarchive.py:%d Simulationarchive.getSimulation' % st.lineno,
+                   '%s is assigned on a path on which synchronize()/integrate() may already have run: the synchronisation overwrites the cached mid-step state before the switch takes effect' % tgt)
+    if any(has_sync(x) for x in ast.walk(fn) if isinstance(x, ast.stmt)) and all_setters:
+        samples.append('%s: %d switch assignments, none after a synchronising call' % (where0, len(all_setters)))
+
+    # ---- R09.8: a switch written as sim.ri_X.keep_unsynchronized is raised only under a test of that integrator
     def setters_in(st, guard, out):
-        """assignments to *.keep_unsynchronized in st, with the integrator names the enclosing ifs test for."""
         if isinstance(st, ast.Assign):
             for t in st.targets:
                 if isinstance(t, ast.Attribute) and t.attr == 'keep_unsynchronized':
@@ -289,48 +334,30 @@ def rule_python_snapshot_pickup(ctx):
         elif isinstance(st, ast.If):
             g = set(guard)
             for c in ast.walk(st.test):
-                if isinstance(c, ast.Compare) and isinstance(c.left, ast.Attribute) and c.left.attr == 'integrator' and len(c.ops) == 1 and isinstance(c.ops[0], ast.Eq) \
-                        and isinstance(c.comparators[0], ast.Constant):
+                if isinstance(c, ast.Compare) and len(c.ops) == 1 and isinstance(c.comparators[0], ast.Constant) and isinstance(c.ops[0], ast.Eq) \
+                        and ((isinstance(c.left, ast.Attribute) and c.left.attr == 'integrator') or isinstance(c.left, ast.Name)):
                     g.add(c.comparators[0].value)
-            for b in st.body:
-                setters_in(b, frozenset(g), out)
-            for b in st.orelse:
-                setters_in(b, guard, out)
-
-    for blk in blocks(fn.body):
-        first_sync = None
-        for i, st in enumerate(blk):
-            if isinstance(st, (ast.If, ast.For, ast.While, ast.With, ast.Try)):
-                continue
-            for c in ast.walk(st):
-                if isinstance(c, ast.Call) and isinstance(c.func, ast.Attribute) and c.func.attr in SYNC and first_sync is None:
-                    first_sync = (i, c.func.attr, st.lineno)
-        if first_sync is None:
-            continue
-        before, after = [], []
-        for i, st in enumerate(blk):
-            setters_in(st, frozenset(), before if i < first_sync[0] else after)
-        if not before and not after:
-            continue
-        n += 1
-        where = 'rebound/simulationarchive.py:%s Simulationarchive.getSimulation' % first_sync[2]
-        owners = {k.split('.')[-1] for k, g, ln in before}
-        for want in ('ri_whfast', 'ri_saba'):
-            if want not in owners:
-                ctx.report('R09.7', 'getSimulation:%s:missing' % want, where, 'the branch calls %s() without setting %s.keep_unsynchronized before it: the snapshot is synchronised for good and the continued run is not bit-identical' % (first_sync[1], want))
-        for k, g, ln in after:
-            ctx.report('R09.7', 'getSimulation:%s:order' % k.split('.')[-1], where,
-                       '%s.keep_unsynchronized is assigned after %s() has already run: the synchronisation overwrites the cached mid-step state before the switch takes effect' % (k, first_sync[1]))
-        # R09.8: the switch may only be raised on an integrator whose safe_mode the branch has looked at
-        for k, g, ln in before:
-            sub = k.split('.')[-1]
+                if isinstance(c, ast.Compare) and len(c.ops) == 1 and isinstance(c.ops[0], ast.In) and isinstance(c.comparators[0], (ast.Tuple, ast.List, ast.Set)):
+                    g.add('in:' + ','.join(str(e_.value) for e_ in c.comparators[0].elts if isinstance(e_, ast.Constant)))
+            for b_ in st.body:
+                setters_in(b_, frozenset(g), out)
+            for b_ in st.orelse:
+                setters_in(b_, guard, out)
+        elif isinstance(st, (ast.For, ast.While, ast.With, ast.Try)):
+            for b_ in getattr(st, 'body', []):
+                setters_in(b_, guard, out)
+    found = []
+    for st in fn.body:
+        setters_in(st, frozenset(), found)
+    for k, g, ln in found:
+        sub = k.split('.')[-1]
+        if sub in refuses:
             n += 1
-            if sub in refuses and sub[3:] not in g:
+            if sub[3:] not in g:
                 ctx.report('R09.8', 'getSimulation:%s:unguarded' % sub, 'rebound/simulationarchive.py:%s Simulationarchive.getSimulation' % ln,
                            '%s.keep_unsynchronized is set whatever integrator the snapshot uses, but %s refuses keep_unsynchronized=1 while %s.safe_mode is 1 (only the safe_mode of the integrator in use is examined): a snapshot of another Wisdom-Holman integrator cannot be continued'
                            % (k, refuses[sub], sub))
-        samples.append('%s: %s() after keep_unsynchronized of %s' % (where, first_sync[1], sorted(owners)))
-    ctx.covered('R09.7', 'Python getSimulation: keep_unsynchronized of WHFast and SABA set before the first synchronising call in every branch, and only on the integrator whose safe_mode was examined (R09.8)', n, floor=6, samples=samples)
+    ctx.covered('R09.7', 'Python getSimulation: keep_unsynchronized of WHFast and SABA set before the first synchronising call in every branch, and only on the integrator whose safe_mode was examined (R09.8)', n, floor=2, samples=samples)
 
 
 def run(ctx):
